@@ -453,7 +453,11 @@ def reference(case, tmp):
     env = envs[0]
     seq = full_read(env)
     params = cv(dict(env.params))
+    REF_EXTRA["src_params_after_read"] = dict(list(env)[0].params)
     return seq, params
+
+
+REF_EXTRA = {}
 
 
 def quiet():
@@ -1079,6 +1083,7 @@ def monitor(case, tmp):
     info = {}
     try:
         ref, refp = reference(case, tmp)
+        srcpost = REF_EXTRA.get("src_params_after_read")
     except Exception as e:  # the pipeline is not readable at all: outside the quantifier
         return None, ["ref-raises:" + errname(e)], {"ref_error": "%s: %s" % (errname(e), str(e)[:200])}
     outs, before, after = run_history(case, tmp)
@@ -1109,7 +1114,7 @@ def monitor(case, tmp):
     if before != after:
         ks = sorted(k for k in before if before[k] != after.get(k))
         raw.append(("source-modified", ",".join(k.rstrip("0123456789") for k in ks), "caller-passed data changed during the history: %s" % ks))
-    info = {"ref_len": len(ref), "nfull": nfull, "outs": outs, "ref": ref, "refp": refp}
+    info = {"ref_len": len(ref), "nfull": nfull, "outs": outs, "ref": ref, "refp": refp, "srcpost": srcpost}
     return raw, tags, info
 
 
@@ -1144,6 +1149,205 @@ def pdiff(p, q):
         return ",".join(ks)[:60]
     except Exception:
         return "?"
+
+
+# ----------------------------------------------------------------------------------------------
+# (A) the request for the Lean driver: the pipeline's stateful skeleton + the history
+LAZY = {"Sparsify", "Densify", "Noise", "Binary", "Cycle", "Params", "Chunk", "Identity", "Mutable", "Harden", "Flatten", "Repr",
+        "Grounded", "OpeRewards"}
+ELEMENTWISE = {"Sparsify", "Binary", "Params", "Chunk", "Identity", "Mutable", "Harden", "OpeRewards"}
+EAGER = {"Sort"}
+CALLTIME = {"Riffle"}
+
+
+class Interner:
+    def __init__(self):
+        self.ids = {}
+        self.toks = {}
+        self.tokinfo = []
+
+    def item(self, canon):
+        k = cjson(canon)
+        if k not in self.ids:
+            self.ids[k] = len(self.ids)
+        return self.ids[k]
+
+    def items(self, canons):
+        return [self.item(c) for c in canons]
+
+    def tok(self, pipe, key, value):
+        k = cjson([pipe, key, value])
+        if k not in self.toks:
+            self.toks[k] = len(self.tokinfo)
+            self.tokinfo.append((pipe, key, value))
+        return self.toks[k]
+
+    def ptoks(self, pipe, params):
+        return [self.tok(pipe, str(k), cv(v)) for k, v in params.items()]
+
+    def resolve(self, toks):
+        """what `resolve_params` makes of the per-pipe params the tokens stand for"""
+        infos = []
+        for t in toks:
+            if t >= len(self.tokinfo):
+                return None
+            infos.append(self.tokinfo[t])
+        counts = {}
+        for _, k, _ in infos:
+            counts[k] = counts.get(k, 0) + 1
+        index = {}
+        out = {}
+        for _, k, v in infos:
+            if counts[k] == 1:
+                out[k] = v
+            else:
+                index[k] = index.get(k, 0) + 1
+                out["%s%d" % (k, index[k])] = v
+        return {"d": sorted(([k, v] for k, v in out.items()), key=lambda p: p[0])}
+
+
+def elem_map(a, b):
+    if len(a) != len(b):
+        return None
+    m = {}
+    for x, y in zip(a, b):
+        if m.setdefault(x, y) != y:
+            return None
+    return [[x, y] for x, y in m.items()]
+
+
+def describe(case, tmp, nd, srcpost=None):
+    """run a fresh pipeline stage by stage through its public pipes and describe it for the model.
+    -> (request-without-variant, interner, staged final ids) ; None when the pipeline cannot be staged"""
+    import coba.pipes as cp
+    import coba.environments.filters as ef
+    from coba.random import CobaRandom
+    envs, watch = build(case, tmp)
+    env = envs[0]
+    pipes = list(env)
+    I = Interner()
+    source = pipes[0]
+    pre = dict(source.params)
+    cur = list(source.read())
+    post = srcpost if srcpost is not None else dict(source.params)    # source params after a full read of the PIPELINE
+    ids = I.items([cint(x) for x in cur])
+    once_asis = case["src"]["kind"] == "sup_xy" and not any(st["m"] == "save" for st in case.get("chain", []))
+    src = {"once": False, "once_asis": once_asis, "items": ids, "parPre": I.ptoks(0, pre), "parPost": I.ptoks(0, post)}
+    nodes = []
+    fin_table = []
+    fin_elem = {}
+    asis_ok = True          # every stage behind an as-is stateful stage has a declared laziness
+    seen_stateful = once_asis
+    has_protected_later = [any(isinstance(q, cp.Cache) and q.protected for q in pipes[i + 1:]) for i in range(len(pipes))]
+    nfin = 0
+    for i, f in enumerate(pipes[1:], 1):
+        name = type(f).__name__
+        if isinstance(f, cp.Cache):
+            nodes.append({"k": "cache", "sz": getattr(f, "_n_slice", 25), "prot": bool(f.protected), "st": "done" if f.protected else "unread"})
+            continue
+        if isinstance(f, ef.BatchSafe) and isinstance(getattr(f, "_filter", None), ef.Finalize):
+            out = list(f.filter(cur))
+            oids = I.items([cint(x) for x in out])
+            fin_table.append([ids, oids])
+            em = elem_map(ids, oids)
+            if em:
+                for a, b in em:
+                    fin_elem.setdefault(a, b)
+            nodes.append({"k": "finalize", "read": has_protected_later[i]})
+            nfin += 1
+            cur, ids = out, oids
+            continue
+        if isinstance(f, ef.Shuffle):
+            seed = f.params.get("shuffle_seed")
+            first = cur[0] if cur else None
+            logged = bool(first is not None and "action" in first and "reward" in first)
+            out = list(f.filter(cur))
+            oids = I.items([cint(x) for x in out])
+            perms, pars = [], []
+            x = seed
+            for d in range(nd):
+                perms.append(CobaRandom(x).shuffle(list(range(len(cur)))))
+                pars.append(I.ptoks(i, {"shuffle_seed": x}))
+                x = x * 3.21 if x is not None else x
+            nodes.append({"k": "shuffle", "v": "fixed", "perms": perms, "par": pars, "logged": logged})
+            if logged:
+                seen_stateful = True
+            cur, ids = out, oids
+            continue
+        out = list(f.filter(cur))
+        oids = I.items([cint(x) for x in out])
+        dem = "lazy" if name in LAZY else "eager" if name in EAGER else "calltime" if name in CALLTIME else "opaque"
+        if dem == "opaque" and seen_stateful:
+            asis_ok = False
+        node = {"k": "pure", "table": [[ids, oids]], "dem": dem if dem != "opaque" else "lazy", "par": I.ptoks(i, dict(f.params)), "cls": name}
+        if name in ELEMENTWISE:
+            em = elem_map(ids, oids)
+            if em:
+                node["elem"] = em
+        nodes.append(node)
+        cur, ids = out, oids
+    # Finalize applied to its own output (objects written by save() are finalized again when they are loaded)
+    try:
+        again = list(ef.BatchSafe(ef.Finalize()).filter(cur))
+        aids = I.items([cint(x) for x in again])
+        fin_table.append([ids, aids])
+    except Exception:
+        pass
+    chain = case.get("chain", [])
+    own = nfin == 1 and isinstance(pipes[-1], ef.BatchSafe) and not any(
+        st["m"] in ("materialize", "save") or (st["m"] == "filter" and st["f"]["cls"] == "BatchSafe" and st["f"].get("inner", {}).get("cls") == "Finalize") for st in chain)
+    req = {"fin": {"table": fin_table, "elem": [[a, b] for a, b in fin_elem.items()], "dem": "lazy"}, "src": src, "nodes": nodes, "ownFin": bool(own)}
+    return req, I, ids, asis_ok
+
+
+def model_hist(case):
+    out = []
+    for h in case["hist"]:
+        m = {"op": h["op"], "on": h["on"] if h.get("on", -1) >= 0 else 0}
+        if h["op"] == "partial":
+            m["k"] = h["k"]
+        out.append(m)
+    return out
+
+
+def asis_request(req, case):
+    """the same pipeline with the stateful stages as the unrepaired code has them"""
+    r = json.loads(json.dumps(req))
+    r["variant"] = "asis"
+    r["src"]["once"] = bool(r["src"].get("once_asis"))
+    for n in r["nodes"]:
+        if n["k"] == "shuffle":
+            n["v"] = "asis"
+    return r
+
+
+def compare_model(case, outs, model, I):
+    """-> list of (step, what) where the implementation and the model disagree"""
+    diffs = []
+    for i, (h, o, m) in enumerate(zip(case["hist"], outs, model)):
+        op = h["op"]
+        if "skip" in o:
+            if m != "skip":
+                diffs.append((i, "%s: implementation had no such object, model %s" % (op, json.dumps(m)[:80])))
+            continue
+        if "err" in o:
+            if m != "err":
+                diffs.append((i, "%s raised %s in the implementation, model %s" % (op, o["err"], json.dumps(m)[:80])))
+            continue
+        if op in ("full", "partial"):
+            got = I.items(o["full"] if op == "full" else o["partial"])
+            if not isinstance(m, dict) or m.get("items") != got:
+                diffs.append((i, "%s read: implementation %s, model %s" % (op, got[:12], json.dumps(m)[:80])))
+        elif op == "params":
+            if not o["after_read"]:
+                continue
+            exp = I.resolve(m["params"]) if isinstance(m, dict) and "params" in m else None
+            if exp != o["params"]:
+                diffs.append((i, "params: implementation %s, model %s" % (cjson(o["params"])[:120], cjson(exp)[:120])))
+        else:
+            if m != "derived":
+                diffs.append((i, "%s succeeded in the implementation, model %s" % (op, json.dumps(m)[:80])))
+    return diffs
 
 
 class C04(Property):
@@ -1212,7 +1416,56 @@ class C04(Property):
         nontrivial = info["ref_len"] > 0 and nobs >= 2 and changing
         tags.append("reflen:%s" % ("0" if info["ref_len"] == 0 else "1-25" if info["ref_len"] <= 25 else "26-50" if info["ref_len"] <= 50 else ">50"))
         impl = {"ref_len": info["ref_len"], "outs": [self.brief(o) for o in info["outs"]]}
-        return {"fails": fails, "nontrivial": nontrivial, "tags": tags, "impl": impl, "model": None}
+        model = None
+        if driver is not None and not any(t.startswith("unsupported:") for t in tags):
+            model = self.correspondence(case, info, fails, tags, driver, tmp)
+        return {"fails": fails, "nontrivial": nontrivial, "tags": tags, "impl": impl, "model": model}
+
+    def correspondence(self, case, info, fails, tags, driver, tmp):
+        """(A) implementation = model on every observation of the history; (C) model = spec"""
+        try:
+            quiet()
+            req, I, staged, asis_ok = describe(case, tmp, len(case["hist"]) + 3, info.get("srcpost"))
+        except Exception as e:
+            tags.append("A:not-staged:" + errname(e))
+            return None
+        if staged != I.items(info["ref"]):
+            tags.append("A:staged-differs")     # the pipeline is not the composition of its pipes on materialised lists
+            return None
+        hist = model_hist(case)
+        ans = driver.ask(dict(req, variant="fixed", hist=hist))
+        model = ans["model"]
+        # (C) run-time sanity of the theorems: when their hypotheses hold the model's reads are the denotation
+        if ans["hyp"]:
+            for h, m in zip(case["hist"], model):
+                if h["op"] == "full" and isinstance(m, dict) and m.get("items") != ans["den"]:
+                    fails.append(F("C", "model: a full read differs from the denotation although the hypotheses of `reread` hold", "C:reread"))
+                if h["op"] == "partial" and isinstance(m, dict) and m.get("items") != ans["den"][:len(m.get("items", []))]:
+                    fails.append(F("C", "model: an abandoned read is not a prefix of the denotation", "C:reread-prefix"))
+            tags.append("hyp:reread")
+        else:
+            tags.append("hyp:not-good")
+        diffs = compare_model(case, info["outs"], model, I)
+        if not diffs:
+            tags.append("A:fixed-variant")
+            return {"variant": "fixed", "outs": model[:12]}
+        # the code as it is (recorded findings not yet repaired in the tree under test)
+        amodel = None
+        if asis_ok:
+            aans = driver.ask(dict(asis_request(req, case), hist=hist))
+            amodel = aans["model"]
+            adiffs = compare_model(case, info["outs"], amodel, I)
+            if not adiffs:
+                tags.append("A:asis-variant")
+                return {"variant": "asis", "outs": amodel[:12]}
+        known = set(PATCH_SIG.values())
+        if fails and all(f["kind"] == "B" and f["sig"] in known for f in fails):
+            tags.append("A:skipped-known-finding")
+            return {"variant": "none", "outs": model[:12]}
+        i, what = diffs[0]
+        cls = case["hist"][i]["op"]
+        fails.append(F("A", "history step %d: %s" % (i, what), "A:" + cls))
+        return {"variant": "mismatch", "outs": model[:12], "asis": amodel[:12] if amodel else None}
 
     def brief(self, o):
         if "full" in o:
